@@ -40,12 +40,24 @@ def run_model(ctx, engine, hs, timeout=600):
     return vlib.split_histories(mo, '--')
 
 
-def fault_verdicts(io):
-    """a crash, sanitizer report, signal or hang of the implementation is a violation of any of the three properties"""
+def fault_verdicts(io, h=None):
+    """a crash, sanitizer report, signal, stack exhaustion or hang of the implementation is a violation of any of the three
+    properties; the op during which it happened is named"""
     for k, l in enumerate(io):
         if l.startswith('!!'):
             w = l.split()
-            return [Verdict(k, 'no fault', l, 'fault:' + (w[1] if len(w) > 1 else '?'), 'the implementation faulted: ' + l)]
+            kind = w[1] if len(w) > 1 else '?'
+            op = h[k].split()[0] if h is not None and k < len(h) else '?'
+            if kind in ('HANG', 'TIMEOUT'):
+                why = f'{op} does not terminate (no result within the per-call time limit)'
+                key = 'nonterminating:' + op
+            elif kind == 'SIGSEGV':
+                why = f'{op} does not terminate normally: SIGSEGV (stack exhaustion by unbounded recursion, or a wild access)'
+                key = 'fault:SIGSEGV:' + op
+            else:
+                why = f'{op} faulted: {l}'
+                key = 'fault:' + kind + ':' + op
+            return [Verdict(k, op + ' returns normally', l, key, why)]
     return []
 
 
@@ -59,7 +71,7 @@ def judged(ctx, engine, exe, histories, judge, valid=None, label=None, shrink=Tr
     known = {k for k, _ in ctx.known_findings()}
     seen_known = set()
     def verdicts(h, io):
-        return fault_verdicts(io) + judge(h, io)
+        return fault_verdicts(io, h) + judge(h, io)
     impl = run_impl(exe, histories, timeout)
     model = run_model(ctx, engine, histories, timeout)
     agreed, noted_broken = 0, False
@@ -162,7 +174,7 @@ def replay_judged(ctx, path, engine, exe, judge):
     h = [o for o in r['ops'] if o != 'reset']
     io = run_impl(exe, [h])[0][len(PREFIX):]
     mo = run_model(ctx, engine, [h])[0][len(PREFIX):]
-    vs = fault_verdicts(io) + judge(h, io)
+    vs = fault_verdicts(io, h) + judge(h, io)
     v = vs[0] if vs else None
     print('ops           :', h)
     print('implementation:', io[:40])
